@@ -25,6 +25,9 @@ type RCmd struct {
 	Out    payload `json:"out"`
 	Err    payload `json:"err"`
 	UseVar string  `json:"use_var,omitempty"` // {{.NAME}} printed in front of the stdout payload
+	// Spaced: the reference is written with blanks inside the braces ("{{ .NAME }}"), which the
+	// template syntax spok documents its references in allows
+	Spaced bool `json:"spaced,omitempty"`
 }
 
 // RTask is a task of a C20 program.
@@ -79,6 +82,7 @@ var reportDocs = []string{"", "Run the thing", "builds everything now", "x", "Li
 var payloads = []payload{
 	{"", ""}, {"hello", "hello"}, {"two words", "two words"}, {`line1\nline2\n`, "line1\nline2\n"}, {"trail  ", "trail  "},
 	{`x=1;y`, "x=1;y"}, {`tab\there`, "tab\there"}, {`\n`, "\n"}, {"a|b&c", "a|b&c"}, {"  lead", "  lead"},
+	{`one\r\ntwo\r\n`, "one\r\ntwo\r\n"}, {`cr\rmid`, "cr\rmid"}, {`tail\r\n`, "tail\r\n"},
 }
 var reportVarNames = []string{"VERSION", "NAME", "other", "FLAG_X", "Zed", "GIT_HASH", "RELEASE_CODENAME"}
 var reportVarValues = []string{"0.3.0", "spok", "a b", "", "--flag=1", "x/y", "50%", "%d%%", "fish & chips", "<in >out", "1.2+dev", "a=b&c=d", "{not a ref}", "$HOME", "back\\slash"}
@@ -123,6 +127,7 @@ func genReportBody(t *rapid.T) ReportCase {
 			rc := RCmd{Out: rapid.SampledFrom(payloads).Draw(t, "out"), Err: rapid.SampledFrom(payloads).Draw(t, "err")}
 			if nv > 0 && rapid.IntRange(0, 2).Draw(t, "usevar") == 2 {
 				rc.UseVar = c.Vars[rapid.IntRange(0, nv-1).Draw(t, "whichvar")][0]
+				rc.Spaced = rapid.IntRange(0, 3).Draw(t, "spaced_reference") == 0
 			}
 			rt.Cmds = append(rt.Cmds, rc)
 		}
@@ -155,6 +160,9 @@ func (c ReportCase) cmdText(ti, ci int, interpolated bool, vars map[string]strin
 			pre = "printf '%s' '" + vars[rc.UseVar] + "' && "
 		} else {
 			pre = "printf '%s' '{{." + rc.UseVar + "}}' && "
+			if rc.Spaced {
+				pre = "printf '%s' '{{ ." + rc.UseVar + " }}' && "
+			}
 		}
 	}
 	return fmt.Sprintf("echo %s >> $LOG && %sprintf '%s' && printf '%s' >&2", rmarker(ti, ci), pre, rc.Out.Arg, rc.Err.Arg)
